@@ -120,11 +120,10 @@ Unparse(x, Dev) ==
             <<"[">> \o JoinArgs(x.largs, <<"SP">>, Dev) \o <<"]">>
        [] kind = "TABLE" -> <<"NL", "{", "|", "SP">> \o at \o <<"NL">> \o kids \o <<"NL", "|", "}", "NL">>
        [] kind = "TABLE_CAPTION" ->
-            IF "CaptionContentOnOwnLine" \in Dev
-            THEN (IF at # <<>> THEN <<"NL", "|", "+", "SP">> \o at \o <<"SP", "|", "NL">>
-                  ELSE <<"NL", "|", "+", "NL">>) \o kids
-            ELSE (IF at # <<>> THEN <<"NL", "|", "+", "SP">> \o at \o <<"SP", "|">> \o kids \o <<"NL">>
-                  ELSE <<"NL", "|", "+">> \o kids \o <<"NL">>)
+            \* as found: the caption text always starts a line of its own.  Repaired: text that
+            \* starts with a blank stays on the marker line (it would read back as preformatted)
+            LET nl == IF "CaptionContentOnOwnLine" \notin Dev /\ kids # <<>> /\ kids[1] = "SP" THEN <<>> ELSE <<"NL">>
+            IN (IF at # <<>> THEN <<"NL", "|", "+", "SP">> \o at \o <<"SP", "|">> ELSE <<"NL", "|", "+">>) \o nl \o kids
        [] kind = "TABLE_ROW" -> <<"NL", "|", "-", "SP">> \o at \o <<"NL">> \o kids
        [] kind = "TABLE_HEADER_CELL" ->
             IF x.attrs # <<>> THEN <<"NL", "!", "SP">> \o at \o <<"SP", "|">> \o kids \o <<"NL">>
